@@ -194,6 +194,42 @@ def run(ctx):
                 ctx.violation({'kind': 'result-changes-under-function-order'},
                               f'function order changes the result: `{a}` / `{b}`', {'src': a + '\n' + b, 'fin': fin, 'strict': False})
 
+    # ... and through the driver the user calls, in strict mode too, with a function the syntax check refuses
+    # among the others: every permutation of the functions of a file gives the same entry for each function
+    import itertools as _it
+    import copy as _copy
+    from pymwp import Analysis as _An, LoopAnalysis as _LA
+    sup = ['int f(int x,int y){ while (x < 3) { y = y + x; } }', 'int g(int a,int b,int c){ a = b * c; if (a < b) { c = a; } }',
+           'int k(int n,int x){ int i; for (i = 0; i < n; i++) { x = x + x; } }']
+    uns = ['int h(int x,int y){ x = a[y]; y = x + 1; }', 'int h(int x){ x = foo(x); }']
+    for i in range(ctx.budget(2, 12)):
+        funcs = [rng.choice(sup[:2]), sup[2] if i % 2 else rng.choice(sup[:2]).replace('int f(', 'int m(').replace('int g(', 'int m('), rng.choice(uns)]
+        if len({f_.split('(')[0] for f_ in funcs}) < 3:
+            continue
+        results = {}
+        for perm in _it.permutations(range(3)):
+            text = '\n'.join(funcs[j] for j in perm)
+            for strict in (False, True):
+                for mode in ('F', 'L'):
+                    try:
+                        ast = astwire.parse(text)
+                        res = _An.run(_copy.deepcopy(ast), strict=strict) if mode == 'F' else _LA.run(_copy.deepcopy(ast), strict=strict)
+                        d = res.to_dict()
+                        entries = d.get('relations' if mode == 'F' else 'loops', {})
+                        from props.c13 import strip_times as _st
+                        digest = json.dumps(_st(json.loads(json.dumps(dict(sorted(entries.items())), default=str))), sort_keys=True)
+                    except Exception as e:
+                        digest = 'raised ' + type(e).__name__
+                    key = (strict, mode)
+                    ctx.case(('perm', text, strict, mode), nontrivial=True)
+                    ctx.count('t_function-order-driver')
+                    if key in results and results[key][0] != digest:
+                        ctx.violation({'kind': 'result-changes-under-function-order', 'driver': True, 'strict': strict},
+                                      f'function order changes the result of the {"function" if mode == "F" else "loop"} driver '
+                                      f'(strict={strict}): `{results[key][1][:120]}` vs `{text[:120]}`',
+                                      {'src': results[key][1], 'variant': text, 'fin': False, 'strict': strict, 'mode': mode})
+                    results.setdefault(key, (digest, text))
+
 
 def replay(ctx, payload):
     inp = payload['input']
